@@ -23,6 +23,10 @@ var c19Preambles = [][]string{
 	{"#include <a.h>", "int f(void);\nint g(void);"},
 	{"// #cgo CFLAGS: -O2", "#include <b.h>\n"},
 	{"/*\n#include <c.h>\n*/", "// trailing"},
+	{"#include <a.h>\n\nint z;"},
+	{"a */ b"},
+	{"int x; /* c */\n\nint y;"},
+	{"int x;\n/* c */", "#include <a.h>"},
 	{"#include <a.h>\nstatic const char table[] = {" + strings.Repeat("1,", 40000) + "};\nint after(void);"},
 }
 
@@ -32,6 +36,16 @@ var c19Check = &impCheck{
 		out := imp.CheckCgo(a, w)
 		out = append(out, imp.CheckExact(a, w)...)
 		return append(out, imp.CheckResolve(a, w)...)
+	},
+	// a multi-line preamble in the automatic form is wrapped in /* */: one that contains */ itself
+	// cannot be written that way, and an error is an acceptable answer
+	tolerateFailure: func(w *imp.World) bool {
+		for _, p := range w.Preamble {
+			if strings.Contains(p, "\n") && strings.Contains(p, "*/") && !strings.HasPrefix(p, "/*") && !strings.HasPrefix(p, "//") {
+				return true
+			}
+		}
+		return false
 	},
 	nontrivial: func(a *imp.Analysis, w *imp.World) bool {
 		for _, s := range a.Specs {
@@ -58,8 +72,8 @@ var c19Check = &impCheck{
 func init() {
 	register(&Check{ID: "C19", Level: "model_checking", Run: func(r *ev.Recorder) {
 		r.Rule = "(1) explicit-state BFS over one real File: Qual(\"C\", s), Anon(\"C\"), ImportName(\"C\", x), ImportAlias(\"C\", C|c|.), the same for a package b/C whose real name is C and for fmt, one-line and multi-line CgoPreamble blocks, PackagePrefix - in every order up to the depth bound. " +
-			"(2) canonical histories: every reference sequence over {C, b/C, a/c, fmt, os, x/y, 9fans.net/go, B/b} (paths that sort before and after \"C\") x 10 preamble lists (0-2 blocks; one with an 80 KB line; one-line, one-line with trailing newline, multi-line, raw /* */ and // forms) x hints naming \"C\" (ImportName, ImportAlias C, c, ., _ ; double hints; hints after the references) x Anon x prefix {pkg, C}, within the deviation bound. " +
-			"(3) every history of 4 operations over {Anon C, a fragment Qual(C) rendered with the File, reference to fmt / C / a path sorting before C, File.Render, preamble} followed by the final render. Oracle on the parsed output: exactly one spec with path \"C\", without a name; every reference built with \"C\" is C.sym; with a preamble the spec is alone in its declaration, its doc comment consists of the preamble blocks' text in order, there is no blank line between doc and import, and all other specs come in an earlier declaration; without a preamble it has no doc; plus C04's exactness and C03's type check (FakeImportC). " +
+			"(2) canonical histories: every reference sequence over {C, b/C, a/c, fmt, os, x/y, 9fans.net/go, B/b} (paths that sort before and after \"C\") x 14 preamble lists (0-2 blocks; one with an 80 KB line; blank lines inside a block; */ inside a one-line and inside a multi-line block - for the latter an error is accepted, since the automatic /* */ form cannot hold it; one-line, one-line with trailing newline, multi-line, raw /* */ and // forms) x hints naming \"C\" (ImportName, ImportAlias C, c, ., _ ; double hints; hints after the references) x Anon x prefix {pkg, C}, within the deviation bound. " +
+			"(3) every history of 5 (thorough: 6) operations over {Anon C, a fragment Qual(C) rendered with the File, reference to fmt / C / a path sorting before C, File.Render, preamble} followed by the final render. Oracle on the parsed output: exactly one spec with path \"C\", without a name; every reference built with \"C\" is C.sym; with a preamble the spec is alone in its declaration, its doc comment consists of the preamble blocks' text in order, there is no blank line between doc and import, and all other specs come in an earlier declaration; without a preamble it has no doc; plus C04's exactness and C03's type check (FakeImportC). " +
 			"distinct_nontrivial = distinct outputs importing \"C\" together with a preamble or another import"
 		r.Assume = []string{"comment text is compared line-wise, trimmed (gofmt may re-indent block comments)", "histories beyond the depth / deviation bounds are outside the bound"}
 		c19Check.run(r)
@@ -88,15 +102,19 @@ func c19Histories(r *ev.Recorder) {
 		{"Ref(9fans.net/go)", func(w *imp.World, st *c19State) { w.Ref("9fans.net/go", 0) }},
 	}
 	n := len(ops)
+	hlen := 5
+	if r.Tier == ev.Thorough {
+		hlen = 6
+	}
 	total := 1
-	for l := 0; l < 4; l++ {
+	for l := 0; l < hlen; l++ {
 		total *= n
 	}
-	for code := 0; code < total; code++ {
+	for code := 0; code < total && !r.Expired(); code++ {
 		w := imp.New("NewFile", "", imp.DefaultTrueName(nil))
 		st := &c19State{}
 		c := code
-		for i := 0; i < 4; i++ {
+		for i := 0; i < hlen; i++ {
 			ops[c%n].do(w, st)
 			c /= n
 		}
@@ -110,6 +128,9 @@ func c19Histories(r *ev.Recorder) {
 			probs = []string{msg}
 		} else {
 			probs = imp.CheckCgo(a, w)
+			if !st.fragOnly {
+				probs = append(probs, imp.CheckExact(a, w)...)
+			}
 			r.Distinct(a.Src)
 		}
 		if len(probs) > 0 {
